@@ -88,7 +88,11 @@ func c08resume(tk []string, cs *h.Case) (string, string) {
 				select {
 				case p := <-ch:
 					disp = w.label(p)
-				case <-time.After(2 * time.Second):
+				case <-time.After(5 * time.Second):
+					// a refusal that arrived later than the 300 ms above: a connection on which the honest node
+					// dispatches nothing was not established
+					kind = "fail"
+					notes = append(notes, "(nothing dispatched)")
 				}
 			} else {
 				notes = append(notes, c08class(fmt.Sprint(rerr)))
